@@ -17,8 +17,10 @@ from __future__ import annotations
 import ast
 import copy
 import importlib
+import json
 import os
 import shutil
+import subprocess
 import tempfile
 import traceback
 from concurrent.futures import ProcessPoolExecutor
@@ -158,6 +160,25 @@ def _run_one(args):
         f"{o.where} {o.construct} {o.rule} {o.what} -- {o.detail}"[:400] for o in bad]
 
 
+def seeded_for(prop: str):
+    base = os.path.join(os.path.dirname(os.path.dirname(os.path.dirname(
+        os.path.abspath(__file__)))), "seeded")
+    out = []
+    if not os.path.isdir(base):
+        return out
+    for d in sorted(os.listdir(base)):
+        mp = os.path.join(base, d, "meta.json")
+        pp = os.path.join(base, d, "patch.diff")
+        if os.path.isfile(mp) and os.path.isfile(pp):
+            try:
+                meta = json.load(open(mp))
+            except Exception:
+                continue
+            if prop in meta.get("detected_by", []):
+                out.append(("seed_" + d, pp))
+    return out
+
+
 def variants_for(prop: str) -> list[Variant]:
     try:
         mod = importlib.import_module(f"lsa.selftest.v_{prop.lower()}")
@@ -172,8 +193,9 @@ def run_selftest(prop: str, repo_root: str, jobs: int = 16, verbose: bool = Fals
     if only:
         variants = [v for v in variants if v.vid == only]
     summary = {"mutants": 0, "detected": 0, "twins": 0, "silent": 0,
-               "skipped_site_not_found": 0, "failures": [], "details": {}}
-    if not variants:
+               "skipped_site_not_found": 0, "failures": [], "details": {},
+               "seeded_changes": len(seeded_for(prop))}
+    if not variants and not seeded_for(prop):
         return summary
     base = "/dev/shm" if os.path.isdir("/dev/shm") and os.access("/dev/shm", os.W_OK) \
         else tempfile.gettempdir()
@@ -194,6 +216,23 @@ def run_selftest(prop: str, repo_root: str, jobs: int = 16, verbose: bool = Fals
                 summary["details"][v.vid] = "skipped (site not found)"
                 continue
             tasks.append((prop, v.vid, root))
+            # independently seeded changes (committed under /verif/seeded) that this
+        # property's check is on record as reporting: regression corpus
+        for sid, patch in seeded_for(prop):
+            if only and only != sid:
+                continue
+            root = os.path.join(scratch, sid)
+            shutil.copytree(os.path.join(repo_root, "liesel"), os.path.join(root, "liesel"),
+                            ignore=shutil.ignore_patterns("__pycache__"))
+            r = subprocess.run(["git", "apply", "-p1", patch], cwd=root,
+                               capture_output=True, text=True)
+            if r.returncode != 0:
+                summary["skipped_site_not_found"] += 1
+                summary["details"][sid] = "skipped (patch does not apply to this tree)"
+                continue
+            variants.append(Variant(sid, "M", "", "", None, None,
+                                    note="independently seeded change (see seeded/)"))
+            tasks.append((prop, sid, root))
         by_id = {v.vid: v for v in variants}
         with ProcessPoolExecutor(max_workers=max(1, min(jobs, len(tasks) or 1))) as ex:
             for vid, status, msgs in ex.map(_run_one, tasks):
